@@ -214,7 +214,8 @@ theorem mainLoop_eq (it : Iter) : mainLoop it =
 /-- The main-loop body on a separator. -/
 theorem mainBody_sep {d : Array Nat} {nbF p cur f : Nat} {it : Iter} {rest : List Nat} (hs : St d nbF p cur it)
     (hcf : cur < f) (hf : f < nbF) (hat : At d p (sepBytes f cur ++ rest)) (hrest : rest ≠ []) :
-    ∃ it1, mainBody it = .ok (.cont it1) ∧ St d nbF (p + (sepBytes f cur).length) f it1 := by
+    ∃ it1, mainBody it = .ok (.cont it1) ∧ St d nbF (p + (sepBytes f cur).length) f it1 ∧
+      it1.repeatData = p + (sepBytes f cur).length ∧ it1.lastLong = none ∧ it1.tsl = 0 := by
   have hsz : p + (sepBytes f cur ++ rest).length ≤ d.size := by
     rcases hat.size_le with h | h
     · simp at h; exact absurd h.2 hrest
@@ -242,7 +243,7 @@ theorem mainBody_sep {d : Array Nat} {nbF p cur f : Nat} {it : Iter} {rest : Lis
     have c3 : ¬ (it.nbFrames ≤ it.currFrame + 1) := by rw [hs.nf, hs.cf]; omega
     have c4 : ¬ (it.frameMax ≤ ((it.currFrame + 1 : Nat) : Int)) := by rw [hs.fm, hs.cf]; omega
     simp only [c2, c3, c4, if_false]
-    refine ⟨_, rfl, ⟨rfl, hs.len, by simp, by simp; omega, by simp [hs.cf], hs.rf, hs.nf, hs.fm⟩⟩
+    refine ⟨_, rfl, ⟨rfl, hs.len, by simp, by simp; omega, by simp [hs.cf], hs.rf, hs.nf, hs.fm⟩, by simp, rfl, rfl⟩
   · simp only [h1, if_false] at hat hsz ⊢
     obtain ⟨h0, hat1⟩ := At.head hat
     obtain ⟨h01, _⟩ := At.head hat1
@@ -262,7 +263,7 @@ theorem mainBody_sep {d : Array Nat} {nbF p cur f : Nat} {it : Iter} {rest : Lis
     have c3 : ¬ (it.nbFrames ≤ it.currFrame + (f - cur)) := by rw [hs.nf, hs.cf]; omega
     have c4 : ¬ (it.frameMax ≤ ((it.currFrame + (f - cur) : Nat) : Int)) := by rw [hs.fm, hs.cf]; omega
     simp only [c2, c3, c4, if_false]
-    refine ⟨_, rfl, ⟨rfl, hs.len, by simp, by simp; omega, by simp [hs.cf]; omega, hs.rf, hs.nf, hs.fm⟩⟩
+    refine ⟨_, rfl, ⟨rfl, hs.len, by simp, by simp; omega, by simp [hs.cf]; omega, hs.rf, hs.nf, hs.fm⟩, by simp, rfl, rfl⟩
 
 /-- The main-loop body on an extension written by `extBytes`. -/
 theorem mainBody_ext {d : Array Nat} {nbF p f : Nat} {it : Iter} {e : Ext} {last : Bool} {rest : List Nat}
@@ -270,7 +271,9 @@ theorem mainBody_ext {d : Array Nat} {nbF p f : Nat} {it : Iter} {e : Ext} {last
     (hat : At d p (extBytes e last ++ rest)) (hend : p + (extBytes e last).length + rest.length = d.size)
     (hlast : last = true → rest = []) :
     ∃ it2, mainBody it = .ok (.ret it2 (.ext { id := e.id.toNat, frame := f, off := p + 1 + hdrLen e last, len := e.len })) ∧
-      St d nbF (p + (extBytes e last).length) f it2 := by
+      St d nbF (p + (extBytes e last).length) f it2 ∧ it2.repeatData = it.repeatData ∧
+      (if e.id < 32 then it2.lastLong = it.lastLong ∧ it2.tsl = it.tsl + e.len
+       else it2.lastLong = some (p + (extBytes e last).length) ∧ it2.tsl = 0) := by
   have hlen := extBytes_length hv last
   have hpl := payload_length hv
   have hl0 := hv.len_lo
@@ -303,7 +306,8 @@ theorem mainBody_ext {d : Array Nat} {nbF p f : Nat} {it : Iter} {e : Ext} {last
     constructor
     · simp only [Res.ok.injEq, MFlow.ret.injEq, Step.ext.injEq, ExtRef.mk.injEq]
       exact ⟨rfl, hb2, hs.cf, by first | trivial | omega, by omega⟩
-    · exact ⟨rfl, hs.len, by simp; omega, by simp; omega, hs.cf, hs.rf, hs.nf, hs.fm⟩
+    · refine ⟨⟨rfl, hs.len, by simp; omega, by simp; omega, hs.cf, hs.rf, hs.nf, hs.fm⟩, rfl, ?_⟩
+      simp only [hshort, if_true, true_and]; omega
   · have hb2 : idByte e last / 2 = e.id.toNat := by
       simp only [idByte, hshort, if_false]; split <;> omega
     by_cases hla : last = true
@@ -327,7 +331,8 @@ theorem mainBody_ext {d : Array Nat} {nbF p f : Nat} {it : Iter} {e : Ext} {last
       constructor
       · simp only [Res.ok.injEq, MFlow.ret.injEq, Step.ext.injEq, ExtRef.mk.injEq]
         exact ⟨rfl, hb2, hs.cf, by first | trivial | omega, by omega⟩
-      · exact ⟨rfl, hs.len, by simp; omega, by simp; omega, hs.cf, hs.rf, hs.nf, hs.fm⟩
+      · refine ⟨⟨rfl, hs.len, by simp; omega, by simp; omega, hs.cf, hs.rf, hs.nf, hs.fm⟩, rfl, ?_⟩
+        simp only [hshort, if_false, and_true, Option.some.injEq]; omega
     · -- long extension followed by more: `L = 1`, lacing bytes
       have hbm : idByte e last % 2 = 1 := by
         have hlf : last = false := by cases last <;> simp_all
@@ -352,7 +357,8 @@ theorem mainBody_ext {d : Array Nat} {nbF p f : Nat} {it : Iter} {e : Ext} {last
       constructor
       · simp only [Res.ok.injEq, MFlow.ret.injEq, Step.ext.injEq, ExtRef.mk.injEq]
         exact ⟨rfl, hb2, hs.cf, by first | trivial | omega, by omega⟩
-      · exact ⟨rfl, hs.len, by simp; omega, by simp; omega, hs.cf, hs.rf, hs.nf, hs.fm⟩
+      · refine ⟨⟨rfl, hs.len, by simp; omega, by simp; omega, hs.cf, hs.rf, hs.nf, hs.fm⟩, rfl, ?_⟩
+        simp only [hshort, if_false, and_true, Option.some.injEq]; omega
 
 theorem serBytes_ne_nil {cur : Nat} {e : Ext} {l : List Ext} : serBytes cur (e :: l) ≠ [] := by
   simp [serBytes, extBytes]
@@ -381,19 +387,19 @@ theorem next_ser {d : Array Nat} {nbF p cur : Nat} {it : Iter} {e : Ext} {l : Li
   · -- no separator
     have hsep : sepBytes e.frame.toNat cur = [] := by simp [sepBytes, hsame]
     simp only [serBytes, hsep, List.nil_append, List.length_nil, Nat.add_zero] at hat hend ⊢
-    obtain ⟨it2, h1, h2⟩ := mainBody_ext (hsame ▸ hs) hv rfl hat (by omega) hlast
+    obtain ⟨it2, h1, h2, _⟩ := mainBody_ext (hsame ▸ hs) hv rfl hat (by omega) hlast
     rw [h1]
     exact ⟨it2, rfl, h2⟩
   · have hlt : cur < e.frame.toNat := by omega
     simp only [serBytes, List.append_assoc] at hat
-    obtain ⟨it1, h1, h2⟩ := mainBody_sep hs hlt hf hat (by simp [extBytes])
+    obtain ⟨it1, h1, h2, _⟩ := mainBody_sep hs hlt hf hat (by simp [extBytes])
     rw [h1]
     simp only
     rw [mainLoop_eq]
     have hcl1 : 0 < it1.currLen := by rw [h2.cl]; omega
     simp only [hcl1, if_true]
     obtain ⟨_, hat'⟩ := hat.append
-    obtain ⟨it2, g1, g2⟩ := mainBody_ext h2 hv rfl hat' (by omega) hlast
+    obtain ⟨it2, g1, g2, _⟩ := mainBody_ext h2 hv rfl hat' (by omega) hlast
     rw [g1]
     refine ⟨it2, ?_, ?_⟩
     · rfl
